@@ -97,6 +97,41 @@ const HAND: &[(&str, &str)] = &[
         (func (export "global_lane3") (result i32) global.get $gv i32x4.extract_lane 3)
         (func (export "shuffled") (result i32) v128.const i8x16 0 1 2 3 4 5 6 7 8 9 10 11 12 13 14 15 v128.const i8x16 16 17 18 19 20 21 22 23 24 25 26 27 28 29 30 31
             i8x16.shuffle 31 30 29 28 27 26 25 24 7 6 5 4 3 2 1 0 i32x4.extract_lane 0))"#),
+    // atomic accesses trap on an unaligned address where their plain counterparts do not: every width of load / store / rmw, aligned and unaligned
+    ("atomics-unaligned", r#"(module (memory (export "m0") 1 1)
+        (func (export "i32_atomic_load_unaligned") (result i32) i32.const 2 i32.atomic.load)
+        (func (export "i32_atomic_load_aligned") (result i32) i32.const 8 i32.atomic.load)
+        (func (export "i32_atomic_load16_u_unaligned") (result i32) i32.const 1 i32.atomic.load16_u)
+        (func (export "i32_atomic_load16_u_aligned") (result i32) i32.const 4 i32.atomic.load16_u)
+        (func (export "i64_atomic_load_unaligned") (result i64) i32.const 4 i64.atomic.load)
+        (func (export "i64_atomic_load_aligned") (result i64) i32.const 16 i64.atomic.load)
+        (func (export "i64_atomic_load16_u_unaligned") (result i64) i32.const 1 i64.atomic.load16_u)
+        (func (export "i64_atomic_load16_u_aligned") (result i64) i32.const 4 i64.atomic.load16_u)
+        (func (export "i64_atomic_load32_u_unaligned") (result i64) i32.const 2 i64.atomic.load32_u)
+        (func (export "i64_atomic_load32_u_aligned") (result i64) i32.const 8 i64.atomic.load32_u)
+        (func (export "i32_atomic_store_unaligned") i32.const 2 i32.const 77 i32.atomic.store)
+        (func (export "i32_atomic_store_aligned") i32.const 16 i32.const 77 i32.atomic.store)
+        (func (export "i32_atomic_store16_unaligned") i32.const 1 i32.const 77 i32.atomic.store16)
+        (func (export "i32_atomic_store16_aligned") i32.const 8 i32.const 77 i32.atomic.store16)
+        (func (export "i64_atomic_store_unaligned") i32.const 4 i64.const 77 i64.atomic.store)
+        (func (export "i64_atomic_store_aligned") i32.const 32 i64.const 77 i64.atomic.store)
+        (func (export "i64_atomic_store16_unaligned") i32.const 1 i64.const 77 i64.atomic.store16)
+        (func (export "i64_atomic_store16_aligned") i32.const 8 i64.const 77 i64.atomic.store16)
+        (func (export "i64_atomic_store32_unaligned") i32.const 2 i64.const 77 i64.atomic.store32)
+        (func (export "i64_atomic_store32_aligned") i32.const 16 i64.const 77 i64.atomic.store32)
+        (func (export "i32_atomic_rmw_add_unaligned") (result i32) i32.const 2 i32.const 5 i32.atomic.rmw.add)
+        (func (export "i32_atomic_rmw_add_aligned") (result i32) i32.const 32 i32.const 5 i32.atomic.rmw.add)
+        (func (export "i32_atomic_rmw16_add_u_unaligned") (result i32) i32.const 1 i32.const 5 i32.atomic.rmw16.add_u)
+        (func (export "i32_atomic_rmw16_add_u_aligned") (result i32) i32.const 16 i32.const 5 i32.atomic.rmw16.add_u)
+        (func (export "i64_atomic_rmw_add_unaligned") (result i64) i32.const 4 i64.const 5 i64.atomic.rmw.add)
+        (func (export "i64_atomic_rmw_add_aligned") (result i64) i32.const 64 i64.const 5 i64.atomic.rmw.add)
+        (func (export "i64_atomic_rmw16_add_u_unaligned") (result i64) i32.const 1 i64.const 5 i64.atomic.rmw16.add_u)
+        (func (export "i64_atomic_rmw16_add_u_aligned") (result i64) i32.const 16 i64.const 5 i64.atomic.rmw16.add_u)
+        (func (export "i64_atomic_rmw32_add_u_unaligned") (result i64) i32.const 2 i64.const 5 i64.atomic.rmw32.add_u)
+        (func (export "i64_atomic_rmw32_add_u_aligned") (result i64) i32.const 32 i64.const 5 i64.atomic.rmw32.add_u)
+        (func (export "i64_atomic_rmw32_xchg_u_unaligned") (result i64) i32.const 2 i64.const 5 i64.atomic.rmw32.xchg_u)
+        (func (export "i64_atomic_rmw32_xchg_u_aligned") (result i64) i32.const 32 i64.const 5 i64.atomic.rmw32.xchg_u)
+        (func (export "cmpxchg32_unaligned") (result i64) i32.const 2 i64.const 0 i64.const 9 i64.atomic.rmw32.cmpxchg_u))"#),
     ("unused-things", r#"(module (memory 1) (global $unused (mut i64) (i64.const 9)) (func $dead_fn (result i32) i32.const 77)
         (func $helper (param i64) (result i64) local.get 0 i64.const 3 i64.mul) (func (export "f") (param i64) (result i64) local.get 0 call $helper)
         (func (export "sel") (param i32 i32 i32) (result i32) local.get 0 local.get 1 local.get 2 select))"#),
